@@ -11,7 +11,7 @@ From Coq Require Import List NArith String Ascii Bool Lia Arith.
 From V Require Import Base.Strings Base.Result Model.Registry Model.Settings Model.Subst
   Model.TypePath Model.Derives Model.Generate Model.WellFormed Model.Renumber Model.MissingId
   Proofs.GenProofs Proofs.ResolveTotal Proofs.FidelityBase Proofs.MissingId Proofs.MissingIdGen
-  Proofs.MissingIdDescent Corr.CheckTG.
+  Proofs.MissingIdDescent Proofs.MissingIdGuard Corr.CheckTG.
 Import ListNotations.
 Open Scope string_scope. Open Scope list_scope.
 
@@ -379,3 +379,136 @@ Section Verdicts.
     - destruct H as (-> & Hb). split; [reflexivity|apply Herr; exact Hb].
   Qed.
 End Verdicts.
+
+(** ** Part D: the round budget always suffices, so on the class every verdict is definite *)
+Lemma NoDup_app_intro {A} (l1 l2 : list A) :
+  NoDup l1 -> NoDup l2 -> (forall x, In x l1 -> In x l2 -> False) -> NoDup (l1 ++ l2).
+Proof.
+  induction l1 as [|a l1 IH]; intros H1 H2 Hd; [exact H2|].
+  inversion H1 as [|? ? Hna H1']; subst. cbn [app]. constructor.
+  - intros H. apply in_app_or in H as [H|H]; [contradiction|]. exact (Hd a (or_introl eq_refl) H).
+  - apply IH; [exact H1'|exact H2|]. intros x Hx. apply Hd. right; exact Hx.
+Qed.
+
+Section Budget.
+  Variable r : registry.
+  Variable s : settings.
+
+  Lemma nodup_keep_NoDup : forall l seen, NoDup (nodup_keep seen l).
+  Proof.
+    induction l as [|a l IH]; intros seen; cbn [nodup_keep]; [constructor|].
+    destruct (existsb (N.eqb a) seen); [apply IH|]. constructor; [|apply IH].
+    intros H. apply nodup_keep_In in H as (_ & Hn). apply Hn. left; reflexivity.
+  Qed.
+
+  Lemma dchild_is_ref x c : dchild r s x c -> In c (all_ref_ids r).
+  Proof.
+    intros Hc. destruct (dchild_edge _ _ _ _ Hc) as (t0 & t & E0 & Et & Hin).
+    assert (Hsrc : exists id', resolve r id' = Some t).
+    { rewrite cow_target_eq' in Et. destruct (ResolveTotal.is_cow (path_ident (t_path t0))).
+      - destruct (t_params t0) as [|p0 ps]; [discriminate|].
+        destruct (tp_ty p0) as [i|]; [|discriminate]. eauto.
+      - inversion Et; subst. eauto. }
+    destruct Hsrc as (id' & Hid').
+    eapply MissingIdGuard.entry_refs_in_all; [exact Hid'|]. apply nonfield_ids_incl. exact Hin.
+  Qed.
+
+  Lemma descent_rounds_enough stop U : forall n visited frontier fails,
+    NoDup visited -> incl visited U -> incl (all_ref_ids r) U ->
+    (forall x, In x frontier -> ~ In x (stop ++ visited) -> In x U) ->
+    (List.length U <= n + List.length visited)%nat ->
+    exists fails', descent_rounds n r s stop visited frontier fails = Some fails'.
+  Proof.
+    induction n as [|n IH]; intros visited frontier fails Hnd Hv Hrefs Hf Hlen; cbn [descent_rounds].
+    - destruct (nodup_keep (stop ++ visited) frontier) as [|a todo] eqn:Et; [eauto|]. exfalso.
+      assert (Ha : In a (nodup_keep (stop ++ visited) frontier)) by (rewrite Et; left; reflexivity).
+      apply nodup_keep_In in Ha as (Haf & Han).
+      assert (Hnd' : NoDup (a :: visited)).
+      { constructor; [|exact Hnd]. intros H. apply Han. apply in_or_app. right; exact H. }
+      assert (Hincl : incl (a :: visited) U).
+      { intros x [<-|Hx]; [apply Hf; assumption|apply Hv; exact Hx]. }
+      pose proof (NoDup_incl_length Hnd' Hincl) as L. cbn [List.length] in L. lia.
+    - destruct (nodup_keep (stop ++ visited) frontier) as [|a todo'] eqn:Et; [eauto|].
+      set (todo := a :: todo') in *.
+      assert (Htodo : forall x, In x todo -> In x frontier /\ ~ In x (stop ++ visited)).
+      { intros x Hx. rewrite <- Et in Hx. apply nodup_keep_In. exact Hx. }
+      apply IH.
+      + apply NoDup_app_intro.
+        * rewrite <- Et. apply nodup_keep_NoDup.
+        * exact Hnd.
+        * intros x Hx Hxv. apply Htodo in Hx as (_ & Hn). apply Hn. apply in_or_app. right; exact Hxv.
+      + intros x Hx. apply in_app_or in Hx as [Hx|Hx]; [|apply Hv; exact Hx].
+        apply Htodo in Hx as (H1 & H2). apply Hf; assumption.
+      + exact Hrefs.
+      + intros x Hx _. apply in_flat_map in Hx as (st & Hst & Hx). apply in_map_iff in Hst as (v & <- & Hv').
+        apply Hrefs. eapply dchild_is_ref. exact Hx.
+      + rewrite app_length. unfold todo. cbn [List.length]. lia.
+  Qed.
+End Budget.
+
+Section Definite.
+  Variable r : registry.
+  Variable s : settings.
+  Variable rank : N -> nat.
+  Variable m : N.
+  Hypothesis Hgen : generable_but r s rank m.
+  Let Hres : resolvable_but r s rank m := proj1 (proj2 Hgen).
+
+  Lemma budget_path id :
+    exists fails, descent_rounds (descent_budget r) r s [] [] [id] [] = Some fails.
+  Proof.
+    apply (descent_rounds_enough r s [] (id :: all_ref_ids r)).
+    - constructor.
+    - intros x [].
+    - intros x Hx. right; exact Hx.
+    - intros x [<-|[]] _. left; reflexivity.
+    - unfold descent_budget. cbn [List.length]. lia.
+  Qed.
+
+  Lemma budget_field stop root :
+    exists fails, descent_rounds (descent_budget r) r s stop [root] (snd (descent_step r s root))
+                                 (fst (descent_step r s root)) = Some fails.
+  Proof.
+    apply (descent_rounds_enough r s stop (root :: all_ref_ids r)).
+    - constructor; [intros []|constructor].
+    - intros x [<-|[]]. left; reflexivity.
+    - intros x Hx. right; exact Hx.
+    - intros x Hx _. right. eapply dchild_is_ref. exact Hx.
+    - unfold descent_budget. cbn [List.length]. lia.
+  Qed.
+
+  Theorem path_verdict_definite id :
+    (in_reg r id \/ id = m) ->
+    (path_verdict r s id = DClean /\ exists t, resolve_type_path r s id = Ok t) \/
+    (path_verdict r s id = DFail (FMissing m) /\ resolve_type_path r s id = Err (ETypeNotFound m)).
+  Proof.
+    intros Hid. pose proof (path_verdict_model r s rank m Hres id Hid) as Hm.
+    destruct (budget_path id) as (fails & E).
+    destruct (descent_rounds_reaches r s rank m Hres _ _ _ Hid E) as (Hall & _).
+    unfold path_verdict in *. rewrite E in *. unfold verdict_of in *.
+    destruct fails as [|x l].
+    - left. split; [reflexivity|exact (proj2 Hm)].
+    - pose proof (Hall x (or_introl eq_refl)) as ->.
+      rewrite (forallb_dfail_all (FMissing m) l) in * by (intros y Hy; apply Hall; right; exact Hy).
+      right. split; [reflexivity|exact (proj2 (proj2 Hm))].
+  Qed.
+
+  Theorem field_verdict_definite t f :
+    (in_reg r (f_ty f) \/ f_ty f = m) ->
+    field_verdict r s t f = DClean \/ field_verdict r s t f = DFail (FMissing m).
+  Proof.
+    intros Hid. unfold field_verdict.
+    set (parents := params_from_scale_info (t_params t)).
+    rewrite (root_answered t (f_ty f) (f_type_name f)). fold parents.
+    destruct (find_parent parents (f_ty f) (f_type_name f)) as [p|] eqn:Efp; [left; reflexivity|].
+    rewrite (stop_ids t). fold parents.
+    destruct (budget_field (map tpi_id parents) (f_ty f)) as (fails & E).
+    destruct (descent_below_root_reaches r s rank m Hres parents _ _ (f_type_name f) fails Hid Efp E)
+      as (Hall & _).
+    destruct (descent_step r s (f_ty f)) as [f0 ch]. cbn [fst snd] in E. rewrite E.
+    unfold verdict_of. destruct fails as [|x l]; [left; reflexivity|].
+    pose proof (Hall x (or_introl eq_refl)) as ->.
+    rewrite (forallb_dfail_all (FMissing m) l) by (intros y Hy; apply Hall; right; exact Hy).
+    right; reflexivity.
+  Qed.
+End Definite.
